@@ -62,6 +62,14 @@ def update_visible(env, name, version):
         return False
 
 
+class _NoController:
+    """Stand-in used when the probe tasks run on real threads (vlib/realrun.py)."""
+    @staticmethod
+    def sched_point(_op, _guard=None):
+        import time as _time
+        _time.sleep(0)      # give the other threads a chance
+
+
 class Probe(Task):
     def __init__(self, name, outcome, run):
         super().__init__(name)
@@ -74,7 +82,7 @@ class Probe(Task):
         self.version = 1
 
     def do(self, env, config):
-        ctrl = vsched.CTRL
+        ctrl = vsched.CTRL if vsched.CTRL is not None else _NoController
         ctrl.sched_point('probe.start')
         self.executions += 1
         seen = {}
@@ -316,17 +324,21 @@ def initial_entry(name, status, clock):
     return entry
 
 
-def execute(case, sched_spec=None, max_steps=20000):
-    """Run one case under one schedule; returns a Record."""
-    envmod, qmod = vsched.modules()
+def prepare(case, envmod):
+    """Tasks, graphs and initial environment of a case (``envmod``: the module providing Env)."""
     run = RunState()
     tasks, hgraph, sgraph = build(case, run)
     env = envmod.Env()
     for key, status in sorted((case.get('init') or {}).items()):
         idx = int(key)
         env[tasks[idx].name] = initial_entry(tasks[idx].name, status, -10 + 2 * idx)
-    backend_box = {}
+    return run, tasks, hgraph, sgraph, env
 
+
+def make_body(case, envmod, qmod, hgraph, sgraph, env, backend_box, passthrough=()):
+    """The call sequence under test as a closure: [prelude on the same back-end object,]
+    Scheduler(...).schedule(env) [, again].  ``passthrough``: exception types of the harness
+    that the prelude must not swallow."""
     def body():
         backend = qmod.QueueScheduling(case['workers'])
         backend_box['backend'] = backend
@@ -343,7 +355,7 @@ def execute(case, sched_spec=None, max_steps=20000):
                 penv[ptasks[int(key)].name] = initial_entry(ptasks[int(key)].name, status, -50)
             try:
                 Scheduler(hard_graph=phard, soft_graph=psoft, backend=backend).schedule(env=penv)
-            except (vsched.Abort, vsched.HarnessGap):
+            except passthrough:
                 raise
             except Exception as exc:      # e.g. AssertionError for FAILED initial entries
                 backend_box['prelude_raised'] = repr(exc)
@@ -354,6 +366,16 @@ def execute(case, sched_spec=None, max_steps=20000):
             # that the previous call left (entries DONE / FAILED / SKIPPED of an earlier run)
             res = sched.schedule(env=env)
         return res
+    return body
+
+
+def execute(case, sched_spec=None, max_steps=20000):
+    """Run one case under one schedule; returns a Record."""
+    envmod, qmod = vsched.modules()
+    run, tasks, hgraph, sgraph, env = prepare(case, envmod)
+    backend_box = {}
+    body = make_body(case, envmod, qmod, hgraph, sgraph, env, backend_box,
+                     passthrough=(vsched.Abort, vsched.HarnessGap))
 
     schedule = make_schedule(sched_spec or case['sched'])
     ctrl, how, value = vsched.run_controlled(schedule, body, max_steps=max_steps)
